@@ -71,6 +71,14 @@ def leaf(t, rng):
                         np.array([2 ** 40, -1], dtype=np.int64),
                         np.array([0.5, 1e-300], dtype=np.float64)])
         return w, w.tolist()
+    if t == 'nparr2':
+        a = np.array([[1, 2], [3, 4]])
+        f = np.array([[1.5, -2.0], [0.25, 8.0]])
+        # the same values in every memory layout numpy hands out
+        w = rng.choice([a, f, a.T, f.T, np.asfortranarray(f), a[::-1], f[:, ::-1],
+                        np.broadcast_to(np.array([5, 6]), (2, 2)),
+                        np.arange(8).reshape(2, 2, 2).transpose(2, 0, 1)[0]])
+        return w, w.tolist()
     if t == 'qfin':
         w = rng.choice(FIN_MAGS) * rng.choice(UNITS)
         return w, w
